@@ -21,7 +21,7 @@ func TestC07(t *testing.T) {
 	mon.Main(t, mon.Check{
 		ID:    "C07",
 		Level: "exploration",
-		Rule:  "hostile bytes against the real code; a panic anywhere kills the worker and is attributed to the journalled case. (A) decoders: every byte string of <=3 bytes (quick) / every 4-byte string starting with a packet type (thorough) plus PRNG strings into gbn.Deserialize, MsgData.Deserialize and the websocket envelope decoding steps (regex wrapper + protojson), each under recover. (B) live GBN handshake: a real server is fed SYN with each of the 256 window values followed by SYNACK and a DATA/ACK/NACK exchange, truncated/oversized/unknown packets at every step; a real client is fed hostile replies. (C) live data phase: for N in {1,2,3} every reachable (outstanding k, base offset) sender state, for N in {20,254} sampled states: one hostile packet is injected - ACK and NACK with every one of the 256 sequence values, DATA with every sequence value and flag bytes {0,1,2,255} - then the window bookkeeping is read through the hook (base<S, top<S, size<=N) and the conversation continues. (E) websocket envelope end to end: a real ClientConn in websocket mode dials a local TLS websocket endpoint (certificate trusted through SSL_CERT_FILE) that answers its receive subscriptions with hostile text frames (malformed JSON, error envelopes, valid envelopes carrying hostile GBN packets). (D) Noise: PRNG-mutated, truncated and random acts into DoHandshake (both roles, XX and KK), hostile record streams into ReadMessage, NoiseGrpcConn.Read and NoiseConn.Read. Non-trivial = every case (each injects hostile input); distinct = (kind, parameters).",
+		Rule:  "hostile bytes against the real code; a panic anywhere kills the worker and is attributed to the journalled case. (A) decoders: every byte string of <=3 bytes (quick) / every 4-byte string starting with a packet type (thorough) plus PRNG strings into gbn.Deserialize, MsgData.Deserialize and the websocket envelope decoding steps (regex wrapper + protojson), each under recover. (B) live GBN handshake: a real server is fed SYN with each of the 256 window values followed by SYNACK and a DATA/ACK/NACK exchange, truncated/oversized/unknown packets at every step; a real client is fed hostile replies. (C) live data phase: for N in {1,2,3} every reachable (outstanding k, base offset) sender state, for N in {20,254} sampled states: one hostile packet is injected - ACK and NACK with every one of the 256 sequence values, DATA with every sequence value and flag bytes {0,1,2,255} - then the window bookkeeping is read through the hook (base<S, top<S, size<=N) and the conversation continues. (E) websocket envelope end to end: a real ClientConn in websocket mode dials a local TLS websocket endpoint (certificate trusted through SSL_CERT_FILE) that answers its receive subscriptions with hostile text frames (malformed JSON, error envelopes, valid envelopes carrying hostile GBN packets). (D) Noise: PRNG-mutated, truncated and random acts into DoHandshake (both roles, XX and KK), hostile record streams into ReadMessage, NoiseGrpcConn.Read and NoiseConn.Read; act twos that authenticate - written through a hook by a responder that holds the right secret - with hostile length fields (v0: 0..65535 in a payload field of 0..1000 bytes; v1/v2: 0, body+-1, body+16/17, 2^16, 2^20, 2^26 and the values that wrap the 32-bit size computation) into the initiator's DoHandshake. Non-trivial = every case (each injects hostile input); distinct = (kind, parameters).",
 		Assumptions: []string{
 			"the websocket envelope is exercised both through the decoding steps of websocketTransport.Recv (hook, bulk) and through a real TLS websocket on loopback (slice E)",
 		},
@@ -481,6 +481,68 @@ func runC07Noise(c *mon.Case) {
 		})
 		records++
 	}
+	// 3. a responder that holds the right secret but breaks the framing of
+	// act two (the one act with a length-prefixed payload): the act
+	// authenticates, so the initiator gets as far as interpreting the
+	// length fields. Lengths that would make the initiator allocate more
+	// than 64 MiB are left out (that is a resource question, not a crash).
+	var hostile2 int
+	for trial := 0; trial < 24; trial++ {
+		spec := &mailbox.VerifHostileAct2{}
+		smax := byte(rng.Intn(3))
+		if kk {
+			smax = 2
+		}
+		desc := ""
+		if smax == 0 {
+			plen := []int{500, 500, 500, 500, 0, 1, 2, 3, 499, 501, 516, 1000}[rng.Intn(12)]
+			spec.V0Payload = make([]byte, plen)
+			rng.Read(spec.V0Payload)
+			lf := []int{0, 1, 2, 497, 498, 499, 500, 501, 502, 516, 1000, 32767, 32768, 65534, 65535, rng.Intn(65536)}[(trial+c.Idx/8)%16]
+			if plen >= 2 {
+				spec.V0Payload[0], spec.V0Payload[1] = byte(lf>>8), byte(lf)
+			}
+			desc = fmt.Sprintf("v0 payload of %d bytes, length field %d", plen, lf)
+		} else {
+			blen := []int{0, 1, 15, 16, 17, 100, 5000}[rng.Intn(7)]
+			spec.Body = make([]byte, blen)
+			rng.Read(spec.Body)
+			lfs := []uint32{0, 1, uint32(blen), uint32(blen) + 1, uint32(blen) + 16, uint32(blen) + 17, 65535, 65536, 1 << 20, 1 << 26,
+				0xffffffef, 0xfffffff0, 0xfffffff1, 0xfffffffe, 0xffffffff, uint32(rng.Intn(1 << 16))}
+			if blen > 0 {
+				lfs = append(lfs, uint32(blen)-1)
+			}
+			spec.LenField = lfs[(trial+c.Idx/8)%len(lfs)]
+			if spec.LenField == 0xffffffef {
+				// wraps to 0xffffffff bytes to read: out of the memory bound
+				spec.LenField = 0xfffffff8
+			}
+			desc = fmt.Sprintf("v%d body of %d bytes, length field %d", smax, blen, spec.LenField)
+		}
+		cfg := eng.HSConfig{KK: kk, CMin: 0, CMax: 2, SMin: 0, SMax: smax, PassC: pass, PassS: pass, Auth: []byte("auth"), KeyC: keyC, KeyS: keyS, HostileAct2: spec}
+		if kk {
+			cfg.CMin, cfg.SMin = 2, 2
+		}
+		var res *eng.HSResult
+		guard(c, "noise.DoHandshake|authenticated-act2", []byte(desc), func() { res = eng.RunHandshake(cfg) })
+		if res != nil && res.C.NewErr == nil && res.S.NewErr == nil {
+			hostile2++
+			// an initiator that accepted the act holds a payload that fits
+			// into what was sent
+			if res.C.Done && res.C.Err == nil {
+				got := res.C.CD.AuthData()
+				max := len(spec.Body)
+				if smax == 0 {
+					max = 65535
+				}
+				if len(got) > max {
+					c.Shard.Violate("noise-act2-payload-overrun", fmt.Sprintf("%s: the initiator completed and holds %d payload bytes", desc, len(got)), map[string]any{"case": desc})
+				}
+			}
+		}
+		c.Shard.Eval("D3|" + desc)
+	}
+	c.Shard.Count("noise_hostile_authenticated_act2", int64(hostile2))
 	c.Shard.Count("noise_hostile_acts", int64(acts))
 	c.Shard.Count("noise_hostile_streams", int64(records))
 	c.Shard.Eval(fmt.Sprintf("D|kk=%v|%d", kk, c.Idx))
